@@ -224,6 +224,7 @@ def index_models(tier, cov, which):
         cfgs += [("q1", "2 goroutines x 2 requests, 2 keys, 2 sizes"),
                  ("2x2c", "2 goroutines x 2 requests, 2 keys, 2 sizes, corrupt file initially indexed"),
                  ("q2", "3 goroutines x 1 request, 2 keys, 2 sizes, corrupt file initially indexed"),
+                 ("q3live", "q3 with the liveness properties: every request ends, the remover catches up (fairness of Spec)"),
                  ("q3b", "2 goroutines x 2 requests, 1 key, 1 size, corrupt file initially indexed, proxy backend (fetch = reserve / ask + create / copy / commit / clean-up; uploads handed to the backend)")]
     for c, desc in cfgs:
         r = model_check(f"Cache/{c}", "MC_Cache.tla", f"MC_Cache_{c}.cfg", workers=16,
@@ -400,7 +401,7 @@ CASE_ASSUME = [
 @check("C01")
 def c01(prop, tier):
     return case_check(prop, tier, "Ingress.tla", "Ingress.cfg",
-                      ["ingress", "-cases", "{cases}", "-tier", "{tier}", "-seed", "{seed}"],
+                      ["ingress", "-only", "C01", "-cases", "{cases}", "-tier", "{tier}", "-seed", "{seed}"],
                       "13 write paths x 12 defect kinds x present/absent x limit relation, pruned by Applicable", CASE_ASSUME)
 
 
@@ -411,7 +412,7 @@ def c18(prop, tier):
         ("Limits", "Limits.tla", "Limits.cfg", "11 paths that can reach the backend x object size in {limit-1, limit, limit+1, 10 x limit}: pre-check on the stated size plus post-check on the size the backend reports decide exactly 'served / present iff size <= max_proxy_blob_size'; an oversize object is not even fetched when the caller states the size", "lim"),
     ]
     drivers = [
-        ("ingress-limits", ["ingress", "-limits", "-cases", "{ing}", "-tier", "{tier}", "-seed", "{seed}"]),
+        ("ingress-limits", ["ingress", "-limits", "-only", "C18", "-cases", "{ing}", "-tier", "{tier}", "-seed", "{seed}"]),
         ("limits", ["limits", "-cases", "{lim}", "-seed", "{seed}"]),
     ]
     return multi_check(prop, tier, models, drivers,
@@ -731,6 +732,16 @@ def c14(prop, tier):
     cov["samples"] += res.get("samples", [])[:3]
     cov["drivers"].append({"driver": "robust", "executions": res["cases"], "drive_s": round(res["_wall_s"], 1)})
     cov["checker_cmd"] += " + tlc Robust.tla + vh robust (child process per run; goroutine / descriptor / reservation oracle after every request)"
+    # every upload of the Ingress.tla table - accepted, refused, defective, aborted - must leave no descriptor and no reservation
+    ri, table, n = case_table("Ingress.tla", "Ingress.cfg")
+    add_model(cov, "Ingress (for the residue oracle)", ri, "13 write paths x 12 defect kinds x present/absent x limit relation")
+    args = ["ingress", "-only", "C14", "-cases", table, "-tier", tier, "-seed", str(seed())]
+    res2 = run_vh(args, timeout=7200)
+    collect_driver(v, res2, {"driver_args": args, "kind": "driver"})
+    cov["evaluations"] += res2["cases"]
+    cov["distinct_nontrivial"] += res2["nontrivial"]
+    cov["drivers"].append({"driver": "ingress (descriptor / reservation residue after every upload)", "executions": res2["cases"], "drive_s": round(res2["_wall_s"], 1)})
+    log(f"[conf] ingress residue: {res2['cases']} uploads, {len(res2.get('violations', []))} violations, {res2['_wall_s']:.1f}s")
     log(f"[conf] robust: {res['cases']} executions ({res['nontrivial']} non-trivial), {len(res.get('violations', []))} violations, {res['_wall_s']:.1f}s")
     rc = v.finish()
     write_evidence(prop, tier, "model_checking", cov, time.time() - t0, len(v.violations),
